@@ -437,17 +437,23 @@ class Evaluator(object):
             if name in obj.attrs:
                 return obj.attrs[name]
             ci = obj.cls
-            p = self._prop(ci, name)
+            # the most derived definition wins: a class-level assignment (`__headercls__ = Header`) in a subclass shadows an
+            # (abstract) property of the same name further down the MRO
+            first = next((c for c in ci.mro() if name in c.attrs or name in c.methods or name in c.props or name in c.plain_props), None)
+            shadowed = first is not None and name in first.attrs and name not in first.methods and name not in first.props and name not in first.plain_props
+            p = None if shadowed else self._prop(ci, name)
             if p is not None and p[0] is not None:
                 # the most derived definition wins: a plain method/property overriding the sdproperty further down the MRO
                 owner = next((c for c in ci.mro() if name in c.methods), None)
                 if owner is None or name in owner.props:
                     return self._call_func(Func(p[0], obj), [], {})
-            pp = ci.find_plain_prop(name)
+            pp = None if shadowed else ci.find_plain_prop(name)
             if pp is not None and pp.get('get') is not None:
                 owner = next((c for c in ci.mro() if name in c.methods), None)
                 if owner is None or name in owner.plain_props:
                     return self._call_func(Func(pp['get'], obj), [], {})
+            if shadowed:
+                return self._class_lookup(ci, name)[1]
             f = self._find_method(ci, name)
             if f is not None:
                 if _is_static(f):
@@ -497,6 +503,8 @@ class Evaluator(object):
                 return Builtin('int.from_bytes')
             if obj.name in ('bytes', 'bytearray') and name == 'fromhex':
                 return Builtin('%s.fromhex' % obj.name)
+            if obj.name in ('bytes', 'bytearray', 'str') and name == 'maketrans':
+                return Builtin('%s.maketrans' % ('str' if obj.name == 'str' else 'bytes'))
             if obj.name in ('int', 'bytes', 'bytearray', 'str', 'list', 'dict') and not name.startswith('_'):
                 return Builtin('unbound:' + name)
             raise NoEval('attribute %s of builtin %s' % (name, obj.name))
@@ -517,9 +525,11 @@ class Evaluator(object):
                 return Builtin('m:' + name, int(v))
             ok = {
                 int: ('bit_length', 'to_bytes', 'real', 'numerator', 'value'),
-                bytes: ('join', 'hex', 'startswith', 'endswith', 'decode', 'index', 'find', 'count', 'rjust', 'ljust', 'lstrip'),
-                VBuf: ('append', 'extend', 'pop', 'hex', 'insert', 'clear', 'copy', 'decode', 'startswith', 'endswith', 'ljust', 'rjust'),
-                str: ('format', 'encode', 'join', 'upper', 'lower', 'startswith', 'endswith', 'replace', 'strip', 'split'),
+                bytes: ('join', 'hex', 'startswith', 'endswith', 'decode', 'index', 'find', 'count', 'rjust', 'ljust', 'lstrip', 'translate',
+                        'maketrans', 'rstrip', 'strip', 'split', 'replace', 'upper', 'lower'),
+                VBuf: ('append', 'extend', 'pop', 'hex', 'insert', 'clear', 'copy', 'decode', 'startswith', 'endswith', 'ljust', 'rjust', 'translate'),
+                str: ('format', 'encode', 'join', 'upper', 'lower', 'startswith', 'endswith', 'replace', 'strip', 'split', 'translate', 'maketrans',
+                      'lstrip', 'rstrip', 'splitlines', 'find', 'index', 'count', 'isdigit', 'zfill', 'rjust', 'ljust'),
                 list: ('append', 'extend', 'pop', 'index', 'insert', 'reverse', 'copy', 'count'),
                 dict: ('get', 'keys', 'values', 'items', 'pop', 'setdefault'),
                 tuple: ('index', 'count'),
@@ -643,10 +653,10 @@ class Evaluator(object):
         node = fi.node
         gen = self._gen.get(id(node))
         if gen is None:
-            gen = self._gen[id(node)] = isinstance(node, ast.AsyncFunctionDef) or \
+            gen = self._gen[id(node)] = 'async' if isinstance(node, ast.AsyncFunctionDef) else \
                 any(isinstance(n, (ast.Yield, ast.YieldFrom)) for n in _own_nodes(node))
-        if gen:
-            raise NoEval('%s is a generator / coroutine' % fi.qualname)
+        if gen == 'async':
+            raise NoEval('%s is a coroutine' % fi.qualname)
         if self.depth >= self.max_depth:
             raise NoEval('call depth %d exceeded at %s' % (self.max_depth, fi.qualname))
         a = node.args
@@ -693,14 +703,18 @@ class Evaluator(object):
             raise Raised('TypeError', '%s missing argument %s' % (fi.qualname, missing[0]))
         self.touched.add(fi.qualname)
         fr = _Frame(self, fi, env, f.closure)
+        if gen:
+            # a generator is evaluated eagerly to the list of the values it yields (pure codec / table code: laziness is not observable;
+            # one that never finishes runs into the step budget)
+            fr.yields = []
         self.depth += 1
         try:
             fr.block(node.body)
         except _Return as r:
-            return r.value
+            return fr.yields if gen else r.value
         finally:
             self.depth -= 1
-        return None
+        return fr.yields if gen else None
 
     def _call_builtin(self, f, args, kwargs):
         n = f.name
@@ -741,6 +755,9 @@ class Evaluator(object):
             b = self._native(args[0])
             order = self._native(args[1]) if len(args) > 1 else kwargs.get('byteorder', 'big')
             return int.from_bytes(b, order, signed=bool(kwargs.get('signed', False)))
+        if n in ('str.maketrans', 'bytes.maketrans'):
+            a = [self._native(x) for x in args]
+            return str.maketrans(*a) if n == 'str.maketrans' else bytes.maketrans(*a)
         if n in ('bytes.fromhex', 'bytearray.fromhex'):
             r = bytes.fromhex(args[0])
             return r if n.startswith('bytes.') else VBuf(r)
@@ -934,6 +951,8 @@ class Evaluator(object):
                 return getattr(recv.tobytes(), name)(self._native(args[0]))
             if name == 'decode':
                 return recv.tobytes().decode(*[self._native(a) for a in args])
+            if name == 'translate':
+                return VBuf(recv.tobytes().translate(*[self._native(a) for a in args], **{k: self._native(v) for k, v in kwargs.items()}))
             if name in ('ljust', 'rjust'):
                 return VBuf(getattr(recv.tobytes(), name)(*[self._native(a) for a in args]))       # a new bytearray, padded
         if isinstance(recv, bytes):
@@ -996,7 +1015,7 @@ class Evaluator(object):
         if isinstance(v, Obj):
             it = v.cls.find_method('__iter__')
             if it is not None:
-                raise NoEval('iteration over %s goes through a generator' % v.cls.name)
+                return list(self._iter(self._call_func(Func(it, v), [], {})))
         raise NoEval('iteration over %r' % (v,))
 
     def truth(self, v):
@@ -1124,6 +1143,7 @@ _CLASSBODY = ast.parse('def __classbody__(): pass').body[0]
 
 class _Frame(object):
     classbody = None
+    yields = None
 
     def __init__(self, ev, fi, env, closure):
         self.E = ev
@@ -1575,6 +1595,22 @@ class _Frame(object):
                 return False
             left, lnode = right, c
         return True
+
+    def _yield_frame(self):
+        fr = self
+        while fr is not None and fr.yields is None:
+            fr = fr.closure if fr.fi is self.fi else None     # comprehension sub-frames share the function of their owner
+        if fr is None:
+            raise NoEval('yield outside an evaluated generator')
+        return fr
+
+    def ev_Yield(self, node):
+        self._yield_frame().yields.append(self.ev(node.value) if node.value is not None else None)
+        return None
+
+    def ev_YieldFrom(self, node):
+        self._yield_frame().yields.extend(self.E._iter(self.ev(node.value)))
+        return None
 
     def ev_NamedExpr(self, node):
         v = self.ev(node.value)
